@@ -68,7 +68,7 @@ def collect():
                 mod = importlib.import_module('props.' + pid)
             except Exception as e:
                 print('cannot import props.' + pid, e)
-                continue
+                raise SystemExit(1)
             c = getattr(mod, 'CLAIM', None)
             if c:
                 CLAIMED[pid] = c
